@@ -1,10 +1,10 @@
 SPECIFICATION Spec
 CONSTANTS
   FSKinds = {"std", "mem", "rec"}
-  PathIds = {3}
+  PathIds = {3, 6}
   Vals = {1, 2, 3}
   MaxRecs = 4
-  MemPaths = {3}
+  MemPaths = {3, 6}
   Avoid = {}
   Mirror = FALSE
   MaxLevel = 100
